@@ -189,6 +189,8 @@ def main(argv=None):
             broken.append(racerr)
         elif rac is not None:
             need = getattr(cfg, "RAC_MIN", {}).get(tier, 1)
+            if rac.get("empty_sections") and not rac["failures"]:
+                broken.append(f"run-time contracts: section(s) {rac['empty_sections']} evaluated nothing although opened with time to spare")
             if rac["evaluations"] < need and not rac["failures"]:
                 # vacuity guard of the run-time part: a harness that silently skipped its sections must not report "held"
                 broken.append(f"run-time contracts evaluated {rac['evaluations']} times, fewer than the {need} this harness always reaches")
